@@ -347,7 +347,8 @@ func (l *Lexer) readNumber(ch byte) (token.Type, string) {
 		l.pos++
 	}
 	if !isDigit(l.peekChar()) {
-		// Invalid exponent, stop here
+		// Invalid exponent, stop here (and don't consume the 'e' and sign)
+		l.pos = errPos
 		return t, string(l.input[pos:errPos])
 	}
 	t = token.FLOAT
